@@ -406,3 +406,102 @@ def reset_pair(cfg):
     except Exception as ex:  # noqa
         ev.append({"e": "exception", "msg": "%s: %s" % (type(ex).__name__, str(ex)[:200])})
     return ev, info
+
+
+# ------------------------------------------------------------------ untrained pass-through of a MulticomponentSurrogate, every method
+class PassBackend:
+    """scripted ternary backend with the query signatures of MulticomponentThermodynamics; every call is recorded by name and by the
+    values its parameters received (whatever the call style); impingementFactor mirrors the real fall-back (previous factor / None)"""
+    numElements = 3
+    elements = ["A", "B", "C"]
+    phases = ["alpha", "beta", "gamma"]
+
+    def __init__(self):
+        self.calls = []
+        self.last_beta = {}
+
+    def _rec(self, name, **kw):
+        self.calls.append((name, {k: (np.array(v, dtype=float).tolist() if isinstance(v, (np.ndarray, list, tuple)) else v) for k, v in kw.items()}))
+
+    def getDrivingForce(self, x, T, precPhase=None, removeCache=False, training=False):
+        self._rec("getDrivingForce", x=x, T=T, precPhase=precPhase, removeCache=removeCache, training=training)
+        x = np.atleast_2d(np.asarray(x, dtype=float))
+        return np.squeeze(1e5 * (x[:, 0] + 0.5 * x[:, 1] - 0.01)), np.squeeze(np.tile([0.2, 0.1], (len(x), 1)))
+
+    def getInterdiffusivity(self, x, T, removeCache=True, phase=None):
+        self._rec("getInterdiffusivity", x=x, T=T, removeCache=removeCache, phase=phase)
+        return 1e-17 * (1 + float(np.sum(x))) * np.eye(2)
+
+    def getTracerDiffusivity(self, x, T, removeCache=True, phase=None):
+        self._rec("getTracerDiffusivity", x=x, T=T, removeCache=removeCache, phase=phase)
+        return 1e-17 * (1 + float(np.sum(x))) * np.ones(3)
+
+    def _inside(self, x):
+        return float(np.sum(x)) > 0.05
+
+    def curvatureFactor(self, x, T, precPhase=None, removeCache=False, searchDir=None, computeSearchDir=False):
+        from kawin.thermo.MultiTherm import CurvatureOutput
+        self._rec("curvatureFactor", x=x, T=T, precPhase=precPhase, removeCache=removeCache, searchDir=searchDir, computeSearchDir=computeSearchDir)
+        if not self._inside(x) and searchDir is None:
+            return None
+        s_ = float(np.sum(x))
+        return CurvatureOutput(dc=np.array([1e-7, 5e-8]) * (1 + s_), mc=3e-21 * (1 + s_), gba=0.5 * np.eye(2), beta=1e-18 * (1 + s_),
+                               c_eq_alpha=np.array([0.004, 0.006]), c_eq_beta=np.array([0.2, 0.1]))
+
+    def impingementFactor(self, x, T, precPhase=None, removeCache=False, searchDir=None):
+        self._rec("impingementFactor", x=x, T=T, precPhase=precPhase, removeCache=removeCache, searchDir=searchDir)
+        if not self._inside(x) and searchDir is None:
+            return self.last_beta.get(precPhase)
+        self.last_beta[precPhase] = 1e-18 * (1 + float(np.sum(x)))
+        return self.last_beta[precPhase]
+
+    def getGrowthAndInterfacialComposition(self, x, T, dG, R, gExtra, precPhase=None, removeCache=False, searchDir=None):
+        self._rec("getGrowthAndInterfacialComposition", x=x, T=T, dG=dG, R=R, gExtra=gExtra, precPhase=precPhase, removeCache=removeCache, searchDir=searchDir)
+        if not self._inside(x) and searchDir is None:
+            return None
+        return (np.asarray(R, dtype=float) * 0 + 1e-12 * dG, np.array([0.004, 0.006]), np.array([0.2, 0.1]))
+
+
+def passthrough_relations():
+    """the same sequence of queries, in several call styles (keyword / positional extras), goes to a backend directly and to an UNTRAINED
+    MulticomponentSurrogate wrapping a twin backend: same answers, and the twin saw the same calls (method names and parameter values)"""
+    from kawin.thermo.Surrogate import MulticomponentSurrogate
+    xin, xout = np.array([0.04, 0.03]), np.array([0.01, 0.01])
+    sd = np.array([0.2, 0.1])
+    R = np.array([1e-9, 2e-9])
+    seq = []
+    for ph in ("beta", "gamma"):
+        seq += [("getDrivingForce", (xin, 1000.0), dict(precPhase=ph)), ("getDrivingForce", (xin, 1000.0, ph), dict(removeCache=True)),
+                ("getDrivingForce", (xin, 1000.0, ph, True), {}),
+                ("getInterdiffusivity", (xin, 1000.0), dict(phase=ph)), ("getTracerDiffusivity", (xin, 1000.0), dict(phase=ph, removeCache=False)),
+                ("curvatureFactor", (xin, 1000.0), dict(precPhase=ph)), ("curvatureFactor", (xin, 1000.0, ph, True), {}),
+                ("curvatureFactor", (xout, 1000.0, ph), dict(removeCache=True)), ("curvatureFactor", (xout, 1000.0), dict(precPhase=ph, searchDir=sd)),
+                ("impingementFactor", (xout, 1000.0, ph), dict(removeCache=True)),             # nothing valid yet: None
+                ("impingementFactor", (xin, 1000.0), dict(precPhase=ph)),
+                ("impingementFactor", (xout, 1000.0, ph), dict(removeCache=True)),             # outside, no search direction: the previous factor
+                ("impingementFactor", (xout, 1000.0, ph, True, sd), {}),
+                ("getGrowthAndInterfacialComposition", (xin, 1000.0, 5e3, R, R * 0), dict(precPhase=ph)),
+                ("getGrowthAndInterfacialComposition", (xout, 1000.0, 5e3, R, R * 0, ph, True), {}),
+                ("getGrowthAndInterfacialComposition", (xout, 1000.0, 5e3, R, R * 0, ph), dict(searchDir=sd))]
+    ev = [{"e": "init"}]
+    direct, twin = PassBackend(), PassBackend()
+    try:
+        sur = MulticomponentSurrogate(twin)
+        for k, (name, a, kw) in enumerate(seq):
+            style = "%d positional%s" % (len(a), (" + " + ",".join(sorted(kw))) if kw else "")
+            tag = "%s #%d (%s)" % (name, k, style)
+            want = getattr(direct, name)(*a, **kw)
+            n0 = len(twin.calls)
+            try:
+                got = getattr(sur, name)(*a, **kw)
+                err = None
+            except Exception as ex:  # noqa
+                got, err = None, type(ex).__name__
+            ev.append({"e": "rel", "group": "C20:untrained-surrogate-answers-like-backend(%s)" % name, "name": tag + ("" if err is None else " raised " + err),
+                       "c": "eq" if (err is None and same(got, want)) else "gt", "want": "eq"})
+            new = twin.calls[n0:]
+            okc = bool(err is None and len(new) == 1 and new[0] == direct.calls[-1])
+            ev.append({"e": "rel", "group": "C20:untrained-surrogate-makes-the-same-backend-call(%s)" % name, "name": tag, "c": "eq" if okc else "gt", "want": "eq"})
+    except Exception as ex:  # noqa
+        ev.append({"e": "exception", "msg": "%s: %s" % (type(ex).__name__, str(ex)[:200])})
+    return ev
